@@ -50,7 +50,11 @@ class GenericResolver(Generic[K, M]):
 
     def _unpack_args(self, args):
         if HAS_UNPACK and any(strip_alias(arg) == typing.Unpack for arg in args):
-            return tuple(arg.source for arg in normalize_type(tuple[args]).args)
+            norm_args = normalize_type(tuple[args]).args
+            if Ellipsis in norm_args:
+                # ``tuple[Unpack[tuple[T, ...]]]`` is normalized to ``tuple[T, ...]``, there is nothing to flatten
+                return args
+            return tuple(arg.source for arg in norm_args)
         return args
 
     def _get_type_var_to_actual(self, type_vars, args):
